@@ -14,6 +14,7 @@ META = {
         "taken from a consumer is always written or pushed into the backpressure relief, a finished write continues with SYNC, then pending data, "
         "then idle; R5 every registration either sends a sync at once or records NEEDS_SYNC; R6 the channel ends are not Clone; "
         "R7 the relief strategies only drop superseded commands (value overwrite / per-key map queue). R12 a `synced` promotes only consumers that saw the whole reply (known finding F55); R5 also: NEEDS_SYNC is cleared only where the Sync write is scheduled."
+        ' R14 the kill switch of await_io_tasks is triggered whichever I/O task ends first.'
 ),
     "does_not_decide": "session correctness over all arrival times and interleavings; equivalence of the final remote lane state with 'all commands sent'",
 }
